@@ -585,6 +585,9 @@ class Gen:
     def safe_den(self, names, d):
         rng = self.rng
         r = rng.random()
+        if r < 0.12 and names:
+            # an integer power of a bare symbol under the division bar: a / x**2
+            return ("bin", "**", ("var", rng.choice(names)), ("num", rng.choice(["2", "3", "2"])))
         if r < 0.35:
             return self.poslit()
         if r < 0.7:
